@@ -164,6 +164,43 @@ def random_trace(rng, D, lmin, lmax, steps, cap):
     return tr, reqs
 
 
+def interleaved_traces(rng, n, steps):
+    """several scheme objects of different (D, lmin, lmax) alive at the same time, requests interleaved: every object must behave
+    as if it were alone (no state shared between objects)"""
+    out = []
+    for _ in range(n):
+        k = rng.choice([2, 2, 3])
+        objs = []
+        for _i in range(k):
+            D = rng.choice([1, 2, 2, 3])
+            lmin = rng.randint(0, 2)
+            lmax = lmin + rng.randint(0, 3 if D <= 2 else 2)
+            cap = lmax + (5 if D <= 2 else 3)
+            cs = new_scheme(D, lmin, lmax)
+            objs.append((cs, D, lmin, lmax, cap))
+        # first events are taken only after ALL objects exist (a later constructor must not disturb an earlier object)
+        trs = [{'d': D, 'lmin': lmin, 'lmax': lmax, 'fresh': True, 'closed': closed_form(D, lmin, lmax), 'events': [first_event(cs)], 'origin': 'interleaved objects'}
+               for cs, D, lmin, lmax, cap in objs]
+        reqs = [[] for _ in objs]
+        for _s in range(steps):
+            i = rng.randrange(k)
+            cs, D, lmin, lmax, cap = objs[i]
+            act = sorted(cs.active_index_set)
+            act = [a for a in act if max(a) < cap] or act
+            r = rng.random()
+            if r < 0.75 and act:
+                v = list(rng.choice(act))
+            elif r < 0.9 and cs.old_index_set:
+                v = list(rng.choice(sorted(cs.old_index_set)))
+            else:
+                v = [rng.randint(max(lmin - 1, 0), cap) for _ in range(D)]
+            ev, _ = request(cs, v)
+            trs[i]['events'].append(ev)
+            reqs[i].append(v)
+        out += list(zip(trs, reqs))
+    return out
+
+
 def run(tier, seed):
     rep = Report(PROP, tier, seed, 'model_checking')
     rng = random.Random(seed)
@@ -211,6 +248,12 @@ def run(tier, seed):
         rep.count(1, key=('rand', D, lmin, lmax, tuple(map(tuple, reqs))))
         if i < 2:
             rep.sample({'kind': 'random request sequence', 'd': D, 'lmin': lmin, 'lmax': lmax, 'requests': reqs})
+    try:
+        for tr, reqs in interleaved_traces(rng, 40 if tier == 'quick' else 400, 12):
+            traces.append(tr)
+            rep.count(1, key=('interleaved', tr['d'], tr['lmin'], tr['lmax'], tuple(map(tuple, reqs))))
+    except Exception as ex:
+        rep.violation('P_NoException', {'origin': 'interleaved objects', 'exception': type(ex).__name__}, {'exception': repr(ex)}, what='interleaved scheme objects raised %r' % ex)
     traces += adaptive_run_traces(rep, tier)
     return conclude(rep, traces)
 
